@@ -25,7 +25,7 @@ import (
 	"github.com/dolthub/dolt/go/zzverif/vsql"
 )
 
-const c31Rule = "rapid-generated histories over one table t(pk INT PRIMARY KEY, c0 INT, c1 INT, c2 VARCHAR): an initial commit with 2..5 rows, main with 2..4 further commits and a branch forked at a drawn main commit with 2..4 commits, each commit 1..4 INSERT/UPDATE(1-2 columns)/DELETE over keys 0..7 (half of the cases keep the two branches on disjoint columns/keys so that replays are conflict-free); per case 2 drawn cherry-picks and 2 drawn reverts of any non-initial commit onto a scratch branch at any commit, the two corollaries, and one interactive rebase of the branch onto a drawn main commit at/after the fork with a drawn plan (actions pick/drop/squash/fixup/reword, drawn order). Oracle: vsql.Merge3 with the bases the property states; merged rows, conflict rows (base/ours/theirs), data after --abort; rebase: number of new commits == picks+rewords, every new commit's data == the model replay prefix, final data == dolt_cherry_pick replay of the kept commits. Non-trivial: a cherry-pick or revert of a commit that is not the scratch HEAD whose rows overlap rows changed by other commits between base and HEAD (cell-wise merge or conflict), and a rebase plan with a squash/fixup and a reorder or drop; distinct by edit sequence + choices."
+const c31Rule = "rapid-generated histories over one table t(pk INT PRIMARY KEY, c0 INT, c1 INT, c2 VARCHAR): an initial commit with 2..5 rows, main with 2..4 further commits and a branch forked at a drawn main commit with 2..4 commits, each commit 1..4 INSERT/UPDATE(1-2 columns)/DELETE over keys 0..7 (a third of the cases: both branches edit anything; a third: the branches edit disjoint key halves/columns; a third: additionally every commit of the branch touches its own key, so reordered plans replay without conflict); per case 2 drawn cherry-picks and 2 drawn reverts of any non-initial commit onto a scratch branch at any commit, the two corollaries, and one interactive rebase of the branch onto a drawn main commit at/after the fork with a drawn plan (actions pick/drop/squash/fixup/reword, drawn order). Oracle: vsql.Merge3 with the bases the property states; merged rows, conflict rows (base/ours/theirs), data after --abort; rebase: number of new commits == picks+rewords, every new commit's data == the model replay prefix, final data == dolt_cherry_pick replay of the kept commits. Non-trivial: a cherry-pick or revert of a commit that is not the scratch HEAD whose rows overlap rows changed by other commits between base and HEAD (cell-wise merge or conflict), and an executed rebase plan that is not a plain in-order replay (has a squash/fixup, a reorder or a drop; see the class histogram for each); distinct by edit sequence + choices."
 
 var c31Cols = []string{"pk", "c0", "c1", "c2"}
 
@@ -99,6 +99,21 @@ func (c *c31Case) edits(label string, n, side int) {
 			c.work.Delete(pk)
 			c.op("del(%s)", pk)
 		}
+	}
+}
+
+// editKey makes n edits that touch only the row with key pk (insert when absent).
+func (c *c31Case) editKey(label, pk string, n int) {
+	for i := 0; i < n; i++ {
+		l := fmt.Sprintf("%s.k%d", label, i)
+		if _, ok := c.work.Rows[pk]; ok {
+			c.update(l, pk, 0)
+			continue
+		}
+		row := vsql.Row{pk, strconv.Itoa(rapid.IntRange(0, 9).Draw(c.rt, l+".c0")), strconv.Itoa(rapid.IntRange(0, 9).Draw(c.rt, l+".c1")), "k"}
+		c.exec(fmt.Sprintf("INSERT INTO t VALUES (%s,%s,%s,'%s')", row[0], row[1], row[2], row[3]))
+		c.work.Put(row)
+		c.op("ins(%s)", strings.Join(row, ","))
 	}
 }
 
@@ -230,8 +245,10 @@ func (c *c31Case) applyMerge(what, proc, arg string, base, ours, theirs *vsql.Ta
 	}
 	// conflicts: compare the conflict rows, then abort
 	c.classes[what+"_conflict"] = true
-	if nconf != strconv.Itoa(len(conflicts)) {
-		c.fail("C31 %s: %s('%s') reports %s data conflicts, the model merge has %d\n base   %s\n ours   %s\n theirs %s", what, proc, arg, nconf, len(conflicts), vsql.Show(base.Sorted()), vsql.Show(ours.Sorted()), vsql.Show(theirs.Sorted()))
+	// data_conflicts counts the tables with conflicts; dolt_conflicts has the row count
+	nrows, _ := c.w.Scalar(c.rt, "SELECT num_conflicts FROM dolt_conflicts WHERE `table` = 't'")
+	if nconf != "1" || nrows != strconv.Itoa(len(conflicts)) {
+		c.fail("C31 %s: %s('%s') reports %s tables with data conflicts and %q conflicting rows, the model merge has %d\n base   %s\n ours   %s\n theirs %s", what, proc, arg, nconf, nrows, len(conflicts), vsql.Show(base.Sorted()), vsql.Show(ours.Sorted()), vsql.Show(theirs.Sorted()))
 	}
 	cr, err := c.w.Query("SELECT base_pk,base_c0,base_c1,base_c2,our_pk,our_c0,our_c1,our_c2,their_pk,their_c0,their_c1,their_c2 FROM dolt_conflicts_t")
 	if err != nil {
@@ -300,7 +317,7 @@ func TestVerif_C31(t *testing.T) {
 	defer srv.Stop()
 	admin := srv.Session(t, "admin", "")
 	defer admin.Close()
-	vh.Check(t, "histories", 200, 450, func(rt *rapid.T) {
+	vh.Check(t, "histories", 150, 350, func(rt *rapid.T) {
 		db := srv.NewDBName()
 		admin.MustExec(rt, "CREATE DATABASE "+db)
 		defer admin.Exec("DROP DATABASE " + db)
@@ -309,13 +326,16 @@ func TestVerif_C31(t *testing.T) {
 		w.MustExec(rt, "SET @@dolt_allow_commit_conflicts = 1")
 		c := &c31Case{rt: rt, w: w, work: vsql.NewTable(c31Cols, 1), classes: map[string]bool{}}
 		c.exec("CREATE TABLE t (pk INT PRIMARY KEY, c0 INT, c1 INT, c2 VARCHAR(20))")
-		disjoint := rapid.Bool().Draw(rt, "disjoint")
+		// mode 0: both branches edit anything; 1: disjoint halves (main: keys 0..3 / column c0,
+		// other: keys 4..7 / columns c1,c2); 2: like 1 and the i-th commit of other touches only key
+		// 4+i, so the branch's commits commute and any reordered plan replays without conflict
+		mode := rapid.IntRange(0, 2).Draw(rt, "mode")
 		sideM, sideO := 0, 0
-		if disjoint {
+		if mode >= 1 {
 			sideM, sideO = 1, 2
-			c.classes["disjoint_branches"] = true
 		}
-		c.op("disjoint=%v", disjoint)
+		c.classes[fmt.Sprintf("mode%d", mode)] = true
+		c.op("mode=%d", mode)
 		// initial rows over the whole key range
 		for i, n := 0, rapid.IntRange(2, 5).Draw(rt, "init.n"); i < n; i++ {
 			pk := strconv.Itoa(rapid.IntRange(0, 7).Draw(rt, fmt.Sprintf("init.pk%d", i)))
@@ -347,7 +367,11 @@ func TestVerif_C31(t *testing.T) {
 		no := rapid.IntRange(2, 4).Draw(rt, "other.n")
 		prev := fork
 		for i := 0; i < no; i++ {
-			c.edits(fmt.Sprintf("o%d", i), rapid.IntRange(1, 4).Draw(rt, fmt.Sprintf("o%d.n", i)), sideO)
+			if mode == 2 {
+				c.editKey(fmt.Sprintf("o%d", i), strconv.Itoa(4+i), rapid.IntRange(1, 3).Draw(rt, fmt.Sprintf("o%d.n", i)))
+			} else {
+				c.edits(fmt.Sprintf("o%d", i), rapid.IntRange(1, 4).Draw(rt, fmt.Sprintf("o%d.n", i)), sideO)
+			}
 			prev = c.commit(prev, fmt.Sprintf("o%d", i+1))
 			otherIdx = append(otherIdx, prev)
 		}
@@ -429,8 +453,16 @@ func TestVerif_C31(t *testing.T) {
 			perm = append([]int{}, otherIdx...)
 		}
 		plan := make([]step, len(perm))
+		firstKept := true
 		for i, x := range perm {
-			plan[i] = step{x, rapid.SampledFrom([]string{"pick", "pick", "drop", "squash", "fixup", "reword"}).Draw(rt, fmt.Sprintf("rebase.a%d", i))}
+			a := rapid.SampledFrom([]string{"pick", "pick", "drop", "squash", "fixup", "reword"}).Draw(rt, fmt.Sprintf("rebase.a%d", i))
+			if firstKept && (a == "squash" || a == "fixup") {
+				a = "pick" // dolt rejects a plan whose first kept action folds into nothing
+			}
+			if a != "drop" {
+				firstKept = false
+			}
+			plan[i] = step{x, a}
 		}
 		replay := func(plan []step) (states []*vsql.Table, ok bool, why string) {
 			state := c.commits[upstream].State
@@ -584,6 +616,6 @@ func TestVerif_C31(t *testing.T) {
 		}
 		sort.Strings(classes)
 		rec.Evals(c.evals)
-		rec.Case(strings.Join(c.ops, " ; "), nontrivialPick && ok && folded && (reordered || dropped), classes...)
+		rec.Case(strings.Join(c.ops, " ; "), nontrivialPick && ok && (folded || reordered || dropped), classes...)
 	})
 }
